@@ -139,3 +139,47 @@ def exhaustive_grid_cases(which):
                                        "carl": [list(u) for u in C]}, "family": "grid-exh"}
     else:
         raise ValueError(which)
+
+
+# ------------------------------------------------------------------ editing sessions on ONE continuum object
+def gen_edit_ops(rng, cspec, labels, n_ops):
+    """Random edits applied between two computations on the same continuum object (and the same dissimilarity
+    object): the kind of history in which a stale cache or a forgotten invalidation shows."""
+    ops = []
+    names = sorted(cspec["ann"].keys())
+    extra = [n for n in ["zoe", "yan", "abe"] if n not in names]
+    for _ in range(n_ops):
+        r = rng.random()
+        if r < 0.25 and extra:
+            ops.append(["add_annotator", extra.pop(0)])
+        elif r < 0.4 and extra:
+            ops.append(["merge_empty_annotator", extra.pop(0)])
+        elif r < 0.65:
+            s = float(rng.randrange(0, 30))
+            ops.append(["add", rng.choice(names), s, s + float(rng.randint(1, 6)), rng.choice(labels)])
+        elif r < 0.85:
+            ops.append(["remove_random", rng.randrange(10 ** 6)])
+        else:
+            ops.append(["reset_bounds"])
+    return ops
+
+
+def apply_edit(continuum, op):
+    from pyannote.core import Segment
+    from pygamma_agreement import Continuum
+    kind = op[0]
+    if kind == "add_annotator":
+        continuum.add_annotator(op[1])
+    elif kind == "merge_empty_annotator":
+        other = Continuum()
+        other.add_annotator(op[1])
+        continuum.merge(other, in_place=True)
+    elif kind == "add":
+        continuum.add(op[1], Segment(op[2], op[3]), op[4])
+    elif kind == "remove_random":
+        units = [(a, u) for a, u in continuum]
+        if len(units) > 1:
+            a, u = units[op[1] % len(units)]
+            continuum.remove(a, u)
+    elif kind == "reset_bounds":
+        continuum.reset_bounds()
